@@ -395,7 +395,11 @@ fn to_string_fn(name: &str, ty: goty::GoType) -> goast::Fn {
                     }),
                     args: vec![
                         goast::Expr::String {
-                            value: "%d".to_string(),
+                            value: match ty {
+                                goty::GoType::TFloat32 | goty::GoType::TFloat64 => "%v",
+                                _ => "%d",
+                            }
+                            .to_string(),
                             ty: goty::GoType::TString,
                         },
                         goast::Expr::Var {
